@@ -38,6 +38,9 @@ pub fn configs_c09(tier: Tier) -> Vec<Box<dyn Config>> {
     // HashSet and HashTable counterparts
     v.push(set_probe_cfg(Plan::Zero, if q { 8 } else { 11 }, tier));
     v.push(super::c06::tab(Plan::Zero, if q { 5 } else { 7 }, if q { 7 } else { 9 }, vec![crate::tablesut::TProbe::Iterators], false, tier, "-iterators"));
+    // the set-algebra iterators (union / intersection / difference / symmetric_difference): size_hint brackets,
+    // next / fold agreement, clones taken mid-way, over all ordered pairs of small sets
+    v.push(super::c07::pairs(Plan::Zero, 3, Plan::Zero, 3, false, tier));
     // zero-sized elements: exact lengths and next / fold / for_each agreement of every HashTable iterator
     v.push(Box::new(super::c02::ZstTables { tier }));
     // scripted deep tables (elements displaced into a second probe group, tombstones): iter / iter_hash / owning iterators
